@@ -1074,7 +1074,9 @@ func (d *Pegnetd) applyTransactionBatch(
 				rates[tx.Conversion],
 				averages[tx.Conversion])
 			if err != nil {
-				return nil
+				// This error will not fail the block. The batch is rejected, so
+				// that it is neither left pending forever nor treated as applied.
+				return pegnet.NoConversionError
 			}
 		} else {
 			// There are no additional transfer checks
